@@ -52,7 +52,15 @@ func init() {
 		Rule: "nesting-centred histories: depth up to 4, arrays and maps under both kinds of parent, wrapped and bare, every mutator (insert/set/remove/set-type/pop-all/fill/drain) applied through handles of all three origins (insertion, lookup, mutable iteration), children crossing the parent's per-element limit in both directions, parents restructured between obtaining and using a handle, commit/reopen interleaved; after every stride: deep comparison through the outermost roots, inline rule and ancestor structure on the register view (independent parser), value ids, and recovery of the current state from the registers a commit would write. Non-trivial = a child of depth >= 2 was mutated through a handle, and both inlined and standalone children occurred; distinct by trace hash",
 		ExpectedReach: []string{"handle.lookup", "handle.iteration", "reach.inlined-children", "nested.depth>=2", "nested.depth>=3", "nested.standalone-child"},
 	}, stdHooks{
-		config:  func(r *Rng, tier string) Config { return baseConfig(r, "nested", tier) },
+		config: func(r *Rng, tier string) Config {
+			c := baseConfig(r, "nested", tier)
+			if r.Sub("hip").Chance(0.25) {
+				// integer keys that collide on every digest level under the default digester: children live inside
+				// inline / external collision groups and last-level lists of their parent maps
+				c.HipShift = uint(r.Sub("hip").Range(1, 3))
+			}
+			return c
+		},
 		profile: nestedProfile,
 		setup: func(w *World) {
 			w.AfterStep = func(w *World, st *Step) *Violation {
@@ -112,7 +120,13 @@ func init() {
 		Rule: "histories in which handles outlive attachment: children are removed from / overwritten in their parent and kept, the former parent keeps being mutated (also at the old position), the detached child is mutated through the old handle across the inline limit, reloaded by slab id, re-attached elsewhere or disposed of; oracle: every step on a detached container changes only registers of the detached tree (register-view diff with ownership by the independent parser), former parent and detached child compare equal to their model nodes, value ids constant, reachability with detached containers counted as roots. Non-trivial = a detached container was mutated through its old handle while the former parent was also mutated afterwards; distinct by trace hash",
 		ExpectedReach: []string{"child.detached-kept", "detach.child-mutated", "reattach", "detach.diff-checked"},
 	}, stdHooks{
-		config: func(r *Rng, tier string) Config { return baseConfig(r, "detach", tier) },
+		config: func(r *Rng, tier string) Config {
+			c := baseConfig(r, "detach", tier)
+			if r.Sub("hip").Chance(0.2) {
+				c.HipShift = uint(r.Sub("hip").Range(1, 3))
+			}
+			return c
+		},
 		profile: func(r *Rng, cfg Config) *Profile {
 			p := nestedProfile(r, cfg)
 			p.Name = "detach"
